@@ -35,19 +35,27 @@ type vector struct {
 type big struct {
 	Kind string `json:"kind"`
 	N    int    `json:"n"`
+	// kind "repeat" (a run, DecodeStack.tla): the unit that is repeated n times, its class and its name
+	Unit  string `json:"unit"`
+	Class string `json:"class"`
+	Name  string `json:"name"`
 }
 
 type record struct {
-	Start   int    `json:"start,omitempty"` // marker written before a vector is executed
-	ID      int    `json:"id,omitempty"`
-	Vec     string `json:"vec,omitempty"`
-	Outcome string `json:"outcome,omitempty"` // what the offending / waiting client saw: reply | closed | timeout
-	Reply   string `json:"reply,omitempty"`
-	Witness string `json:"witness,omitempty"` // "" ok, else what failed
-	Recover string `json:"recover,omitempty"` // "" ok: the affected backend is usable again
-	StackMB int    `json:"stackMB"`
-	HeapMB  int    `json:"heapMB"`
-	Err     string `json:"err,omitempty"`
+	Start     int    `json:"start,omitempty"` // marker written before a vector is executed
+	ID        int    `json:"id,omitempty"`
+	Vec       string `json:"vec,omitempty"`
+	Outcome   string `json:"outcome,omitempty"` // what the offending / waiting client saw: reply | closed | timeout
+	Reply     string `json:"reply,omitempty"`
+	Witness   string `json:"witness,omitempty"` // "" ok, else what failed
+	Recover   string `json:"recover,omitempty"` // "" ok: the affected backend is usable again
+	StackMB   int    `json:"stackMB"`
+	HeapMB    int    `json:"heapMB"`    // peak of the heap in use; samples above heapConfirmMB are taken after a collection
+	HeapRawMB int    `json:"heapRawMB"` // peak of the raw samples
+	Err       string `json:"err,omitempty"`
+	Ms        int64  `json:"ms"`
+
+	fresh bool // start the next vector with a new proxy and new nodes
 }
 
 func bigBytes(b big) []byte {
@@ -64,6 +72,8 @@ func bigBytes(b big) []byte {
 		return []byte(fmt.Sprintf("$%d\r\n%s\r\n", b.N, bytes.Repeat([]byte("y"), b.N)))
 	case "arrayhdrs":
 		return bytes.Repeat([]byte("*1048576\r\n"), b.N)
+	case "repeat":
+		return bytes.Repeat([]byte(b.Unit), b.N)
 	}
 	return nil
 }
@@ -98,6 +108,9 @@ func payloadBytes(v vector, addr string) ([]byte, string) {
 	if v.Form == "big" {
 		var b big
 		json.Unmarshal(v.Payload, &b)
+		if b.Kind == "repeat" {
+			return bigBytes(b), fmt.Sprintf("%s x %d", b.Name, b.N)
+		}
 		return bigBytes(b), fmt.Sprintf("%s(%d)", b.Kind, b.N)
 	}
 	var s string
@@ -186,9 +199,68 @@ func incomplete(v vector) bool {
 	if v.Form == "big" {
 		var b big
 		json.Unmarshal(v.Payload, &b)
-		return b.Kind == "arrayhdrs"
+		// a run sent by a backend: the node closes afterwards (what is left of a run of surplus frames would
+		// otherwise answer the requests of the following vectors)
+		return b.Kind == "arrayhdrs" || b.Kind == "repeat"
 	}
 	return false
+}
+
+// isRun: the vector is a run of one unit (kind "repeat")
+func isRun(v vector) bool {
+	if v.Form != "big" {
+		return false
+	}
+	var b big
+	json.Unmarshal(v.Payload, &b)
+	return b.Kind == "repeat"
+}
+
+// clientRun sends the whole run followed by a well-formed PING and drains the replies until +PONG, the close of the
+// connection or the deadline: "reply" (k replies, then PONG), "closed", "timeout". The run is written by a second
+// goroutine: a proxy that answers every unit must be read from while it is written to.
+func clientRun(c *sut.Client, raw []byte, rec *record) {
+	const deadline = 40 * time.Second
+	t0 := time.Now()
+	sent := make(chan error, 1)
+	go func() {
+		c.C.SetWriteDeadline(t0.Add(deadline))
+		_, err := c.C.Write(raw)
+		if err == nil {
+			_, err = c.C.Write([]byte("PING\r\n"))
+		}
+		sent <- err
+	}()
+	n := 0
+	for {
+		left := time.Until(t0.Add(deadline))
+		if left <= 0 {
+			rec.Outcome = "timeout"
+			break
+		}
+		v, err := c.Recv(left)
+		if err != nil {
+			if strings.Contains(err.Error(), "timeout") {
+				rec.Outcome = "timeout"
+			} else {
+				rec.Outcome = "closed"
+			}
+			break
+		}
+		if v.Kind == '+' && string(v.Str) == "PONG" {
+			rec.Outcome, rec.Reply = "reply", fmt.Sprintf("%d replies, then PONG", n)
+			break
+		}
+		n++
+	}
+	if rec.Outcome != "reply" {
+		rec.Reply = fmt.Sprintf("%d replies", n)
+	}
+	c.Close()
+	select {
+	case <-sent:
+	case <-time.After(5 * time.Second):
+	}
 }
 
 func mem() (int, int) {
@@ -197,39 +269,71 @@ func mem() (int, int) {
 	return int(m.StackInuse >> 20), int(m.HeapInuse >> 20)
 }
 
-func (e *env) runVector(id int, v vector) (rec record) {
-	rec = record{ID: id}
-	raw, label := payloadBytes(v, e.cl.Nodes[0].Addr)
-	if len(label) > 60 {
-		label = label[:60]
-	}
-	rec.Vec = fmt.Sprintf("%s/%s/%s %q", v.Side, v.Ctx, v.Form, label)
+// heapConfirmMB: a heap sample above this is confirmed after a garbage collection, so that what is reported is memory
+// the proxy holds, not buffers of closed connections the collector has not reclaimed yet (each connection may
+// legitimately allocate a declared 512 MiB bulk up front; how many dead ones are around is a matter of GC timing)
+const heapConfirmMB = 900
+
+// sampler records the peaks of stack and heap in use (MiB above the level at its start) until stop() is called.
+type sampler struct {
+	baseS, baseH   int
+	peakS, peakH   int
+	rawH           int
+	stopCh, doneCh chan struct{}
+}
+
+func startSampler() *sampler {
 	runtime.GC()
-	baseS, baseH := mem()
-	peakS, peakH := 0, 0
-	stop := make(chan struct{})
-	sampled := make(chan struct{})
+	sm := &sampler{stopCh: make(chan struct{}), doneCh: make(chan struct{})}
+	sm.baseS, sm.baseH = mem()
 	go func() {
-		defer close(sampled)
+		defer close(sm.doneCh)
 		for {
 			s, h := mem()
-			if s > peakS {
-				peakS = s
+			if s > sm.peakS {
+				sm.peakS = s
 			}
-			if h > peakH {
-				peakH = h
+			if h > sm.rawH {
+				sm.rawH = h
+			}
+			if h > sm.peakH {
+				if h-sm.baseH > heapConfirmMB {
+					runtime.GC()
+					_, h = mem()
+				}
+				if h > sm.peakH {
+					sm.peakH = h
+				}
 			}
 			select {
-			case <-stop:
+			case <-sm.stopCh:
 				return
 			case <-time.After(2 * time.Millisecond):
 			}
 		}
 	}()
+	return sm
+}
+
+// stop returns the peaks: stack, heap (confirmed), heap (raw samples)
+func (sm *sampler) stop() (int, int, int) {
+	close(sm.stopCh)
+	<-sm.doneCh
+	return sm.peakS - sm.baseS, sm.peakH - sm.baseH, sm.rawH - sm.baseH
+}
+
+func (e *env) runVector(id int, v vector) (rec record) {
+	rec = record{ID: id}
+	t0 := time.Now()
+	defer func() { rec.Ms = int64(time.Since(t0) / time.Millisecond) }()
+	raw, label := payloadBytes(v, e.cl.Nodes[0].Addr)
+	if len(label) > 60 {
+		label = label[:60]
+	}
+	rec.Vec = fmt.Sprintf("%s/%s/%s %q", v.Side, v.Ctx, v.Form, label)
+	sm := startSampler()
 	defer func() {
-		close(stop)
-		<-sampled
-		rec.StackMB, rec.HeapMB = peakS-baseS, peakH-baseH
+		rec.StackMB, rec.HeapMB, rec.HeapRawMB = sm.stop()
 		runtime.GC()
 	}()
 	node := e.cl.Nodes[0]
@@ -253,6 +357,11 @@ func (e *env) runVector(id int, v vector) (rec record) {
 			return
 		}
 		defer c.Close()
+		if isRun(v) {
+			clientRun(c, raw, &rec)
+			rec.Witness = e.witness(other, 1)
+			return
+		}
 		go c.Send(raw)
 		// a frame that is merely incomplete is not an error: the proxy may keep waiting; close our side after a while
 		rv, err := c.Recv(400 * time.Millisecond)
@@ -309,6 +418,7 @@ func (e *env) runVector(id int, v vector) (rec record) {
 			c.SendCmd("GET", e.k[0])
 		}
 		read(c, 4*time.Second)
+		rec.fresh = isRun(v)
 	case v.Ctx == "cluster-nodes":
 		for _, n := range e.cl.Nodes {
 			n.ClearLog()
@@ -419,7 +529,7 @@ func run(args []string) error {
 		write(record{Start: id})
 		rec := e.runVector(id, v)
 		write(rec)
-		if rec.Witness != "" || rec.Recover != "" || rec.Err != "" {
+		if rec.Witness != "" || rec.Recover != "" || rec.Err != "" || rec.fresh {
 			// start from a clean proxy for the next vector
 			e.close()
 			if e, err = newEnv(); err != nil {
